@@ -31,6 +31,30 @@ T = {
  "C12": ("model_checking", "3 (C12)", "explicit-state BFS over access histories with a state invariant relating backing memory, resident blocks and the logical contents",
          "Invariant evaluated after every transition of the C03 history space (rejected accesses included) and on the closed constant-data control spaces, observing only wordwise_repr(), cache_repr() and get_data_memory_entries().",
          "Same bounds and key as C03."),
+ "C06": ("exploration", "3 (C06)", "exhaustive enumeration of all 2^16 instruction words and of all programs up to a length bound on the real TOY simulation against a reference accumulator machine",
+         "All 65 536 words x boundary accu/cell values executed by one real step; every program up to length 3 (4) over a 40-word self-modification alphabet stepped to a horizon; 4096-word programs across the pc wrap; accu, pc, instruction register, whole memory, cycles and counts compared after every step.",
+         "Simulations are built from word lists as the assembler leaves them (validated against load_program at start-up); horizon 60 steps."),
+ "C11": ("exploration", "3 (C11)", "bounded-exhaustive program enumeration x cache geometries on the real simulator with a wrapped read_instruction, reference cache fed the observed fetch stream; enumerated reload histories",
+         "Every program up to length 3 (4) over H18 plus sized loops/calls x 13 (26) instruction-cache configurations x both modes: identical results to the real uncached run, every fetch returns the stored instruction object, accesses == fetches, hits / last_hit / cycle surcharge equal a reference cache; every history load X; k steps; load Y; run.",
+         "Wrong-path fetches are observed, not predicted."),
+ "C13": ("model_checking", "3 (C13)", "explicit-state BFS over load/step/run call histories on real simulations, run to closure, invariants and differential oracle (fresh simulation) on every transition",
+         "All interleavings of load(P_i), step(), run() over a 12-program corpus (9 for TOY) on six simulation configurations, deduplicated on the complete canonical snapshot plus every inspection result; the search closes (524 states).",
+         "Program corpus is fixed; behaviour after a run-time fault is not explored."),
+ "C16": ("exploration", "3 (C16)", "deviation-bounded exhaustive exploration: every inspection function x every step index (bound 1), pairs (bound 2), saturated schedule, against the uninspected run",
+         "For each corpus program x mode x cache configuration, every single deviation (one function called once or twice after step i) and the saturated schedule are executed on fresh simulations; the digest of the complete canonical state after every later step and all final inspection results must equal the baseline.",
+         "Corpus of 10 (14) RISC-V and 6 TOY programs; bound 2 only in thorough."),
+ "C17": ("exploration", "3 (C17)", "exhaustive enumeration of all 12- and 16-bit values (and boundary 32-bit patterns) through the real formatter and tables against a reference formatter",
+         "All 4096 / 65 536 values with negative and over-wide aliases; all 4096 populations of 12 byte addresses in three write orders at both ends of the data range through get_data_memory_entries(); every register x boundary values; every TOY accu, pc and memory-cell value through the TOY tables.",
+         "32-bit values from boundary / single-bit / run-of-ones patterns only."),
+ "C18": ("model_checking", "3 (C18)", "explicit-state BFS over read/write histories on the real flat memories (RISC-V and TOY) against a cell dictionary",
+         "All histories to depth 3 (4) over widths {1,2,4,8} x 23 addresses around both ends of the valid range (negative, >= 2^32, straddling) for RISC-V and depth 4 (5) over 10 addresses for TOY, replayed on fresh objects and deduplicated on the canonical object state; typed errors and state-unchanged checks on every transition.",
+         "For a store straddling the boundary only 'raises' is demanded."),
+ "C19": ("exploration", "3 (C19)", "exhaustive enumeration of all 2^16 words / all constructors x addresses, and of all source texts of a bounded TOY grammar against a layout computed from the abstract program",
+         "Encoding round trip for every word and every constructor x 4096 addresses; every text of up to 2 (3) instruction lines x label placements x reference targets x data declarations x segment framings assembled by the real ToySimulation.load_program and compared cell by cell; the three help-page examples run to their documented results.",
+         "Grammar bounded to the generator's shapes."),
+ "C20": ("model_checking", "3 (C20)", "per-program explicit-state BFS to closure over step / first_cycle_step / second_cycle_step / single_step call sequences on the real ToySimulation against a two-phase reference automaton",
+         "For every program up to length 2 (3) over the 40-word alphabet, the empty program and the help-page examples, all call sequences (legal and illegal, in every reached state) are explored until no new canonical snapshot appears; legal calls must track the reference by half instructions, illegal calls must raise and change nothing, boundary states must equal the whole-step run.",
+         "Non-terminating programs are cut at an instruction cap (24 / 60) and reported as cut."),
 }
 
 NA_REASON = "check not built yet at this commit (work in progress; the technique applies, see DESIGN.md)"
